@@ -474,6 +474,36 @@ func targets() []*target {
 				"(pc : unit)", "(pc_noColor pc_jsonMode : bool)", "(pc_lvl pc_clr pc_bg : Z)", "(pc_buf : bytes)"},
 			result: "option bytes", final: "Some (pc_buf)"},
 
+		// ---- Entry.printPC: the caller part in the three formats; the Add* members, AppendInt, the colour library's WrapColorTo and
+		// pc.source() are parameters, checkedfuncname / echoResetColor / the separators are the translations ----
+		{pkg: slogPkg, recv: "Entry", fn: "printPC", coq: "print_pc", file: "Layout", strict: true, fallback: "LayoutRef.print_pc_ref",
+			comment: "(returns pc.buf; None = panic)", panicT: "None", retfmt: "Some (%s)", effects: []string{"pc_buf"}, inlineVars: true,
+			opaque: map[string]string{"pc.noColor": "pc_noColor", "pc.jsonMode": "pc_jsonMode"},
+			tymap:  map[string]string{"*Source": "srcv"}, fields: map[string]string{"File": "src_file", "Line": "src_line", "Function": "src_function"},
+			globals: []string{"src_file", "src_line", "src_function"},
+			calls: map[string]callSpec{
+				"*PrintCtx.source":               {pure: "g_source"},
+				"*PrintCtx.pcAppendComma":        {state: "pc_append_comma pc_jsonMode pc_buf", partial: true},
+				"*PrintCtx.pcAppendColon":        {state: "pc_append_colon pc_jsonMode pc_buf", partial: true},
+				"*PrintCtx.pcAppendByte":         {state: "pc_append_byte pc_buf %0", partial: true},
+				"*PrintCtx.pcAppendStringKey":    {state: "Escapes.string_key g_hex m_safeSet pc_jsonMode pc_buf %0", partial: true},
+				"*PrintCtx.pcAppendString":       {state: "pc_buf ++ %0"},
+				"*PrintCtx.AddString":            {state: "f_add_string pc_buf %0 %1"},
+				"*PrintCtx.AddInt":               {state: "f_add_int pc_buf %0 %1"},
+				"*PrintCtx.AddPrefixedString":    {state: "f_add_pstring pc_buf %0 %1 %2"},
+				"*PrintCtx.AddPrefixedInt":       {state: "f_add_pint pc_buf %0 %1 %2"},
+				"*PrintCtx.AppendInt":            {state: "f_append_int pc_buf %0"},
+				"colorizeToolS.wrapColorTo":      {state: "f_wrap_color_to pc_buf %1 %2", lazy: true},
+				"colorizeToolS.echoResetColor":   {state: "Colors.echo_reset pc_buf", partial: true, lazy: true},
+				"checkedfuncname":                {pure: "checked_funcname f_replace_all g_flags m_codeHostingProvidersMap %0", partial: true},
+			},
+			params: []string{"(f_add_string : bytes -> bytes -> bytes -> bytes)", "(f_add_int : bytes -> bytes -> Z -> bytes)",
+				"(f_add_pstring : bytes -> bytes -> bytes -> bytes -> bytes)", "(f_add_pint : bytes -> bytes -> bytes -> Z -> bytes)",
+				"(f_append_int : bytes -> Z -> bytes)", "(f_wrap_color_to : bytes -> Z -> bytes -> bytes)", "(f_replace_all : bytes -> bytes -> bytes -> bytes)",
+				"(g_hex : bytes)", "(m_safeSet : list (Z * bool))", "(g_flags : Z)", "(m_codeHostingProvidersMap : list (bytes * bytes))",
+				"(g_source : srcv)", "(pc : unit)", "(pc_noColor pc_jsonMode : bool)", "(pc_buf : bytes)"},
+			result: "option bytes", final: "Some (pc_buf)"},
+
 		// ---- the skeleton of printImpl after the blank-line rule (C02, C04-C06, C14): which part printers run,
 		// in what order, under which mode bit / flag; the level colours; ONE printOut of pc.Bytes() after End.
 		// The part printers are parameters over the context pc (LayoutRef.pcs)
